@@ -146,9 +146,20 @@ class C13(ArrayProp):
 class C16(ArrayProp):
     lean_modules = ["Varint.Props.C16"]
     diff_is_violation = True
-    keys = ["m", "h", "gs", "fc", "gc", "grc", "len", "adv"]
+    keys = ["m", "h", "gs", "fc", "gc", "grc", "len", "adv", "sz"]
     rule = ("metadata outputs and header accessors of every codec compared with ground truth recomputed by the harness "
             "and with the model; lengths around 240/241 and multiples of 128 +- 1")
 
 
-PROPS = {"C02": C02(), "C03": C03(), "C13": C13(), "C16": C16(), "C01": C01(), "C04": C04(), "C05": C05(), "C12": C12()}
+class C11(Spec):
+    lean_modules = ["Varint.Props.C11"]
+    diff_is_violation = True
+    rule = ("every (bit offset mod W, width 1..W) pair for slot widths 8/16/32/64, values all-ones / one-hot / random, "
+            "prior contents zero / ones / random, stream allocated to exactly the overlapping words; signed helpers "
+            "over the whole field for every width 2..64")
+
+    def gen(self, rng, tier):
+        return genops.gen_bits(rng, tier)
+
+
+PROPS = {"C11": C11(), "C02": C02(), "C03": C03(), "C13": C13(), "C16": C16(), "C01": C01(), "C04": C04(), "C05": C05(), "C12": C12()}
